@@ -89,7 +89,9 @@ def mw_obj(tid):
                     return next()
                 finally:
                     TRACE.append('<mw%d' % _tid)
-        cls = type('C10MW%d' % tid, (Middleware,), {'unique': tid != 4})
+        # odd types derive from the preceding even one: different middleware types that are related by inheritance
+        base = type(mw_obj(tid - 1)) if tid % 2 else Middleware
+        cls = type('C10MW%d' % tid, (base,), {'unique': tid != 4})
         inst = cls()
         inst.request = request
         _MW[tid] = inst
@@ -229,7 +231,7 @@ class Builder(object):
                     render = factory(fac)('tmpl-%s' % rid) if fac else None
                     if fac is None:
                         render = 'unfulfilled-%s' % rid      # no factory anywhere: stays an unusable argument
-                routes.append((prefix + pattern, self.eps[rid], render, methods, mode, merged, res))
+                routes.append((prefix + pattern, self.eps[rid], render, methods, mode, merged, res, rid))
         walk(root, 'L', '', [], {}, [])
         # the outermost application's own list stays application-level (it also serves the catch-all route);
         # what the harness merged in from inner levels is declared on the route
@@ -237,7 +239,7 @@ class Builder(object):
         root_res = dict((n_, self.value('L', n_)) for n_ in root['res'])
         app = Application(resources=root_res, slash_mode=root['mode'], error_handler=handler(root['handler']),
                           middlewares=[mw_obj(t) for t in root['mws']])
-        for pattern, ep, render, methods, mode, merged, res in routes:
+        for pattern, ep, render, methods, mode, merged, res, _rid in routes:
             assert [m['tid'] for m in merged[:nroot]] == list(root['mws'])
             res = dict((k_, v_) for k_, v_ in res.items() if k_ not in root_res)     # the outermost application's own stay on it
             r = Route(pattern, ep, render, methods=methods, slash_mode=mode, resources=res,
@@ -304,6 +306,7 @@ def body(tree, ctx):
     if got != want:
         ctx.mismatch('route-table', 'nested routes %r, flat %r' % (got, want), rc)
         return
+    expected_chain = dict((r_[7], [m['tid'] for m in r_[5]]) for r_ in routes)
     reqs = []
     for pfx in sorted(set(prefixes(tree))):
         for p in PATHS:
@@ -319,6 +322,12 @@ def body(tree, ctx):
                 r = call(app, path, method, headers={'Accept': 'text/plain'})
                 ctx.requests += 1
                 out.append((r.status, norm_body(r.body), r.header('Location'), list(TRACE), repr(r.exc) if r.exc else None))
+            # the flat declaration goes through the framework's own merge too; the middlewares that ran before each endpoint are
+            # therefore also compared with the harness's merge (outer list, then inner; a unique *type* once, outermost)
+            problem = chain_problem(out[0][3], expected_chain)
+            if problem:
+                ctx.mismatch('differs-middleware', '%s %s: %s' % (method, path, problem), dict(tree=tree, request=[path, method]))
+                return
             if out[0] != out[1]:
                 diff = [k for k, (a, c) in enumerate(zip(out[0], out[1])) if a != c]
                 what = ['status', 'body', 'Location', 'middleware/endpoint trace', 'exception'][diff[0]]
@@ -328,6 +337,23 @@ def body(tree, ctx):
     ctx.event('trees-compared')
     if nontrivial(tree):
         ctx.nt(tree, sample=len(ctx.samples) < 2)
+
+
+def chain_problem(trace, expected_chain):
+    """for every endpoint that ran: the middlewares entered (and still open) when it ran, against the model's merged list"""
+    open_ = []
+    for ev in trace:
+        if ev.startswith('mw') and ev.endswith('>'):
+            open_.append(int(ev[2]))
+        elif ev.startswith('<mw'):
+            if open_:
+                open_.pop()
+        elif ev.startswith('ep'):
+            rid = ev[2:]
+            want = expected_chain.get(rid)
+            if want is not None and open_ != want:
+                return 'endpoint %s ran inside middlewares %r, the merged lists give %r' % (rid, open_, want)
+    return None
 
 
 def norm_body(b):
